@@ -1052,10 +1052,8 @@ def _chk_psd(inp):
             fails.append((FID_IPSD, 'is_positive_semidefinite accepts every positive definite matrix', repr(A_list)))
         if cls == 'indef' and got:
             fails.append((FID_IPSD, 'is_positive_semidefinite rejects every matrix with a negative principal minor', repr(A_list)))
-        if cls == 'singular' and not got:
-            fails.append((FID_IPSD, 'is_positive_semidefinite accepts every singular positive semidefinite matrix',
-                          '%r has only non-negative principal minors (numpy eigvalsh min %.3g) but is rejected'
-                          % (A_list, _mineig(A0))))
+        # NOTE a singular PSD matrix lies on the boundary of the cone: in floating point either answer is
+        # within rounding of the exact one, so no clause demands acceptance (it was a false alarm)
     try:
         R = nearest_positive_semidefinite(A)
     except Exception as e:  # noqa
@@ -1075,8 +1073,8 @@ def _chk_psd(inp):
     if cls == 'pd' and not np.array_equal(R, A0):
         fails.append((FID_NPSD, 'nearest_positive_semidefinite returns a positive definite matrix unchanged',
                       '%r -> %r' % (A_list, R.tolist())))
-    if cls == 'singular' and not np.array_equal(R, A0):
-        fails.append((FID_NPSD, 'nearest_positive_semidefinite returns a singular positive semidefinite matrix unchanged',
+    if cls == 'singular' and float(np.abs(R - A0).max()) > 1e-12 * max(1.0, float(np.abs(A0).max())):
+        fails.append((FID_NPSD, 'nearest_positive_semidefinite returns a singular positive semidefinite matrix unchanged (within 1e-12 relative)',
                       '%r (all principal minors >= 0) -> %r, max abs change %.3g' % (A_list, R.tolist(), float(np.abs(R - A0).max()))))
     P = _projection(A0)
     if float(np.abs(R - P).max()) > 1e-8:
@@ -1350,7 +1348,9 @@ def _chk_nearest_result(fails, fid, prefix, ref, v0, new, what):
             continue
         if not (isinstance(new[k], (int, float)) and float(new[k]) == v0[k]):
             if 'singular' in classes.get(k, ()):
-                clause = prefix + ': values of a singular positive semidefinite block are never altered'
+                if abs(float(new[k]) - v0[k]) <= 1e-12 * max(1.0, max(abs(x) for x in v0.values())):
+                    continue
+                clause = prefix + ': values of a singular positive semidefinite block are never altered (within 1e-12 relative)'
             else:
                 clause = prefix + ': values outside invalid blocks are never altered (positive definite blocks, other parameters)'
             fails.append((fid, clause, '%s: %s becomes %r (change %.3g)' % (what, k, new[k], float(new[k]) - v0[k])))
@@ -1371,8 +1371,6 @@ def _chk_valid(inp):
         return [(FID_VALID, 'validate_parameters: no internal error', '%s: %s for %s' % (type(e).__name__, e, what))]
     if cls == 'pd' and not ok:
         fails.append((FID_VALID, 'validate_parameters accepts values with positive definite blocks', what))
-    if cls == 'singular' and not ok:
-        fails.append((FID_VALID, 'validate_parameters accepts values with singular positive semidefinite blocks', what))
     if cls == 'indef' and ok:
         fails.append((FID_VALID, 'validate_parameters rejects values with an indefinite block', what))
     try:
